@@ -143,4 +143,23 @@ CHECKS = {
   'note': 'Bounded schedule space (<= 6 preemptions, line granularity; opcode-level tracing crashes CPython 3.12.1 and is off). ~80 cases x 4-40 schedules quick. '
           'Scheduler timeouts and child crashes are counted as inconclusive, never as violations.',
  },
+ 'C05': {
+  'technique': 'grammar-based program generation: structural oracle on the transformed AST + behavioural differential hooked vs hand-rewritten vs untouched source',
+  'text': 'Module sources are generated from a statement grammar (docstring, __future__ imports, nested def / async def / class, decorator stacks, control flow incl. '
+          'match, annotated assignments to names / attributes / subscripts, traced sub-expressions, unsupported hints) for all settings of claw_is_pep526, decorator '
+          'placement and default / non-default configuration. The transformed AST must compile and, once the injected import, decorators and check statements have been '
+          'validated against an independent re-statement of the rule and stripped, dump identically to the original including positions. For every third case the module '
+          'is imported hooked, hand-rewritten (my own source rewriter) and untouched in forked children: evaluation trace, first exception (class and original line), '
+          'decoration warnings and probe verdicts are compared.',
+  'note': 'Bounded exploration (depth <= 3, <= 4 statements per block). The transformer is reached through BeartypeNodeTransformer exactly as the loader calls it, and '
+          'through the real beartype_package hook for the behavioural part.',
+ },
+ 'C16': {
+  'technique': 'property-based testing over process histories (fresh interpreters, differential against an empty cache + .pyc file invariant) and controlled-scheduler concurrent imports',
+  'text': 'A scratch package is imported by 2-5 fresh interpreters in sequence, each with its own hook setting, with source edits in between; the fingerprint of the last '
+          'run must equal the one obtained after deleting every __pycache__, and after every run each .pyc must reference beartype\'s injected names iff its name '
+          'carries the beartype marker. A second family imports a hooked and an unhooked module from two threads under the controlled scheduler (every line inside '
+          'beartype is a yield point) and checks the same file invariant.',
+  'note': '~100 histories / schedules in the quick tier (each history costs 3-6 interpreter start-ups). Scratch trees live under $TMPDIR and are removed after each case.',
+ },
 }
